@@ -15,11 +15,11 @@ type Config struct {
 	KeySpace  int
 	PageSize  int
 	Opts      OpenOpts
-	Reopen    float64                       // probability of a reopen after a transaction
-	Rollback  float64                       // probability that a write transaction rolls back
-	OptSched  func(r *rand.Rand) OpenOpts   // option schedule for reopens (C13); nil = same options
-	ROProbe   float64                       // probability of a read-only-transaction probe block
-	MaxDepth  int                           // bucket nesting
+	Reopen    float64                     // probability of a reopen after a transaction
+	Rollback  float64                     // probability that a write transaction rolls back
+	OptSched  func(r *rand.Rand) OpenOpts // option schedule for reopens (C13); nil = same options
+	ROProbe   float64                     // probability of a read-only-transaction probe block
+	MaxDepth  int                         // bucket nesting
 	NoBigKeys bool
 }
 
